@@ -781,3 +781,89 @@ def variant_state_at_exits(F, body, ref_local, adt, variants):
                 work.append(s)
     out = {b: transfer(b, s) for b, s in state_in.items() if b in live}
     return {b: s for b, s in state_in.items() if b in live}, out
+
+
+# ---------------------------------------------------------------------------------------------
+# Path search that respects materialised flags. `let v = match x { A => None, B => Some(..) }; if let Some(..) = v`
+# (and `let ok = ..true/false..; if ok`) create a merge followed by a second test of the same fact; a path-insensitive
+# search combines the A-branch with the Some-edge. Here a local whose every definition is a constant (an enum aggregate of
+# a known variant, or a bool constant) is tracked along the path, and a later switch on it only follows the matching edge.
+def _flag_locals(body):
+    defs = {}
+    for blk, j, s in body.stmts():
+        if s['k'] != 'assign' or s['lhs'].get('p'):
+            continue
+        rv = s['rv']
+        val = None
+        if rv['k'] == 'agg' and rv.get('ak') == 'adt' and rv.get('variant') is not None:
+            val = ('variant', rv['variant'])
+        elif rv['k'] == 'use' and isinstance(rv['o'], dict) and 'c' in rv['o'] and str(rv['o']['c']) in ('true', 'false', 'const true', 'const false'):
+            val = ('bool', str(rv['o']['c']).endswith('true'))
+        defs.setdefault(s['lhs']['l'], []).append(val)
+    for blk, t in body.calls():
+        if not t['dest'].get('p'):
+            defs.setdefault(t['dest']['l'], []).append(None)
+    return {l for l, vs in defs.items() if vs and all(v is not None for v in vs)}
+
+
+def shortest_path_flags(F, body, du, start, goals, removed=(), removed_edges=()):
+    """Like Body.shortest_path, but infeasible combinations through materialised flags are not followed."""
+    from collections import deque
+    flags = _flag_locals(body)
+    removed, goals, removed_edges = set(removed), set(goals), set(removed_edges)
+
+    def after_block(b, known):
+        known = dict(known)
+        for j, s in enumerate(body.blocks[b]['s']):
+            if s['k'] == 'assign' and not s['lhs'].get('p') and s['lhs']['l'] in flags:
+                rv = s['rv']
+                if rv['k'] == 'agg':
+                    known[s['lhs']['l']] = ('variant', rv['variant'])
+                else:
+                    known[s['lhs']['l']] = ('bool', str(rv['o']['c']).endswith('true'))
+            elif s['k'] == 'assign' and not s['lhs'].get('p') and s['rv']['k'] == 'use':
+                src = operand_place(s['rv']['o'])
+                if src is not None and not src.get('p') and src['l'] in known:
+                    known[s['lhs']['l']] = known[src['l']]          # a plain move/copy of the flag
+        return known
+
+    def allowed_targets(b, known):
+        ec = edge_condition(F, body, du, b)
+        if ec is None:
+            return None
+        org, labels = ec
+        l = None
+        if org['k'] == 'discr' and not org['pl'].get('p'):
+            l = org['pl']['l']
+        elif org['k'] == 'place' and not org['pl'].get('p'):
+            l = org['pl']['l']
+        if l is None or l not in known:
+            return None
+        want = known[l]
+        ok = {tgt for tgt, labs in labels.items() if want in labs}
+        return ok or None
+
+    st0 = (start, ())
+    prev = {st0: None}
+    q = deque([st0])
+    while q:
+        b, kn = q.popleft()
+        if b in goals:
+            path, cur = [], (b, kn)
+            while cur is not None:
+                path.append(cur[0])
+                cur = prev[cur]
+            return path[::-1]
+        known = after_block(b, dict(kn))
+        only = allowed_targets(b, known)
+        for s in body.succ(b):
+            if s in removed or (b, s) in removed_edges:
+                continue
+            if only is not None and s not in only:
+                continue
+            st = (s, tuple(sorted(known.items())))
+            if st in prev:
+                continue
+            prev[st] = (b, kn)
+            q.append(st)
+    return None
